@@ -21,6 +21,10 @@ PROP = {'engine': 'directinvoke',
             'test': 'TestC17Bucket',
             'quick': {'checks': 800, 'shards': 8, 'timeout': 600},
             'thorough': {'checks': 3000, 'shards': 14, 'timeout': 2400, 'race': True, 'race_frac': 0.1}},
+           {'engine': 'directinvoke',
+            'test': 'TestC17Throttle',
+            'quick': {'checks': 64, 'shards': 8, 'timeout': 600},
+            'thorough': {'checks': 800, 'shards': 14, 'timeout': 2400}},
            {'engine': 'stack',
             'test': 'TestC17Stack',
             'quick': {'checks': 100, 'shards': 8, 'timeout': 900},
@@ -70,3 +74,4 @@ PROP = {'engine': 'directinvoke',
                'caught when refill > capacity or over longer windows.',
  'technique': 'property-based testing (rapid): independent specification + differential (pristine state vs in-sequence) oracle; fault injection '
               'through instrumented reader/writer/connection; timing envelope on a monotonic clock; native Go fuzzing'}
+PROP['rule'] += " Part 5 (TestC17Throttle, added for a round-6 seeded change): a streaming response a little smaller or up to 40 KB larger than the burst goes through a small bucket (burst 32-48 KiB, rate 32-64 KiB/s), handed over without delay; a reset comes 60-700 ms after the call - while the copy waits for tokens - or not at all. Oracle: the call returns (within the time an undisturbed copy needs plus 10 s); what was forwarded is a prefix of the response; a reset that interrupted the copy gives Truncated, is acknowledged and carries the metrics; without one the response is Complete and whole; by any time no more than burst + rate x elapsed was forwarded (one refill tick of slack)."
